@@ -11,6 +11,7 @@ import (
 	"github.com/trustbloc/sidetree-core-go/pkg/api/protocol"
 	"github.com/trustbloc/sidetree-core-go/pkg/api/txn"
 	"github.com/trustbloc/sidetree-core-go/pkg/versions/1_0/operationparser"
+	"github.com/trustbloc/sidetree-core-go/pkg/versions/1_0/txnprovider"
 
 	"verifharness/hx"
 	"verifharness/ref"
@@ -232,6 +233,64 @@ func batchRoundTrip(c *hx.Ctx, p protocol.Protocol, batch []*batchOp, now int64,
 			return fail("operation %s reads back with anchor origin %v, expected %v", w.ID, g.AnchorOrigin, w.Origin)
 		}
 	}
+	// the same anchor string read by a node that holds none of the files itself: everything comes from the second of two
+	// alternate sources named by the transaction (the first one has nothing)
+	sameAsGot := func(other []*operation.AnchoredOperation) bool {
+		if len(other) != len(got) {
+			return false
+		}
+		for i := range got {
+			if string(other[i].OperationRequest) != string(got[i].OperationRequest) || other[i].Type != got[i].Type || other[i].UniqueSuffix != got[i].UniqueSuffix {
+				return false
+			}
+		}
+		return true
+	}
+	{
+		alt := hx.NewMemCAS()
+		for addr, content := range cas.M {
+			alt.M["src1|"+addr] = content
+		}
+		va := hx.NewVersion(p, hx.VersionOpts{CAS: alt, ParserOpts: []operationparser.Option{operationparser.WithAnchorTimeValidator(clock)},
+			ProviderOpts: []txnprovider.Opt{txnprovider.WithSourceCASURIFormatter(func(uri, source string) (string, error) { return source + "|" + uri, nil })}})
+		gotAlt, err := va.Provider.GetTxnOperations(&txn.SidetreeTxn{AnchorString: info.AnchorString, Namespace: hx.Namespace, TransactionTime: 100, TransactionNumber: 1,
+			ProtocolVersion: p.GenesisTime, AlternateSources: []string{"src0", "src1"}})
+		if err != nil {
+			return fail("GetTxnOperations through the transaction's alternate sources failed although the source holds every file: %v", err)
+		}
+		if !sameAsGot(gotAlt) {
+			return fail("batch read through an alternate source differs from the batch read from the local CAS (%d vs %d operations)", len(gotAlt), len(got))
+		}
+		c.Count("alternate_source_reads")
+	}
+	// CAS write faults: the k-th write fails (once / from then on); PrepareTxnFiles must either report the error or
+	// return an anchor string that reads back as exactly this batch
+	nWrites := cas.Writes()
+	for k := 1; k <= nWrites; k++ {
+		for _, permanent := range []bool{false, true} {
+			fc := hx.NewMemCAS()
+			kk, perm := k, permanent
+			fc.WriteErr = func(call int, _ []byte) error {
+				if call == kk || (perm && call > kk) {
+					return fmt.Errorf("injected CAS write failure")
+				}
+				return nil
+			}
+			vf := hx.NewVersion(p, hx.VersionOpts{CAS: fc, ParserOpts: []operationparser.Option{operationparser.WithAnchorTimeValidator(clock)}})
+			fi, err := vf.Handler.PrepareTxnFiles(q)
+			c.Eval()
+			if err != nil {
+				c.Count("write_fault_reported")
+				continue
+			}
+			gotF, err := vf.Provider.GetTxnOperations(&txn.SidetreeTxn{AnchorString: fi.AnchorString, Namespace: hx.Namespace, TransactionTime: 100, TransactionNumber: 1, ProtocolVersion: p.GenesisTime})
+			if err != nil || !sameAsGot(gotF) {
+				replay["failed_write"], replay["permanent"] = k, permanent
+				return fail("CAS write #%d of %d failed (permanent=%v), PrepareTxnFiles returned anchor string %q without error, but it does not read back as the batch: %v", k, nWrites, permanent, fi.AnchorString, err)
+			}
+			c.Count("write_fault_survived")
+		}
+	}
 	c.Count(fmt.Sprintf("batches_with_%d_types", countTypes(inc)))
 	if len(def) > 0 {
 		c.Count("batches_with_deferred")
@@ -262,7 +321,7 @@ func countTypes(b []*batchOp) int {
 }
 
 func checkC13(c *hx.Ctx) {
-	c.Rule("batches of client-built operations through the REAL OperationHandler, gzip and OperationProvider over an in-memory CAS: all 4+16+64+256 type sequences of length <= 4 on distinct DIDs (exhaustive), the same sequences with repeated suffixes at every position, deactivate-only / update-only / single-operation / maximum-size batches, batches with operations expired on a virtual clock (also all-expired), random mixes up to MaxOperationCount; every operation carries a unique marker; oracle: one operation per distinct suffix (the first queued) reads back with same type, suffix, JSON-equal request and embedded anchor origin, ordered create, recover, update, deactivate; anchor count = operations read back; included + deferred + expired = queued exactly once; non-trivial = batch with >= 2 operations; distinct = distinct batches")
+	c.Rule("batches of client-built operations through the REAL OperationHandler, gzip and OperationProvider over an in-memory CAS: all 4+16+64+256 type sequences of length <= 4 on distinct DIDs (exhaustive), the same sequences with repeated suffixes at every position, deactivate-only / update-only / single-operation / maximum-size batches, batches with operations expired on a virtual clock (also all-expired), random mixes up to MaxOperationCount; every operation carries a unique marker; oracle: one operation per distinct suffix (the first queued) reads back with same type, suffix, JSON-equal request and embedded anchor origin, ordered create, recover, update, deactivate; anchor count = operations read back; included + deferred + expired = queued exactly once; every batch is also read back through the transaction's alternate sources by a node holding no file, and re-created with the k-th CAS write failing (once / permanently) for every k: error or an anchor string that reads back as the batch; non-trivial = batch with >= 2 operations; distinct = distinct batches")
 	rng := c.Rng("pool")
 	type env struct {
 		p    protocol.Protocol
@@ -433,6 +492,8 @@ func checkC13(c *hx.Ctx) {
 		c.Floor("ok:"+t, 1)
 	}
 	c.Floor("all_expired_batches", 1)
+	c.Floor("alternate_source_reads", 500)
+	c.Floor("write_fault_reported", 1000)
 	c.Floor("batches_with_deferred", 100)
 	c.Floor("batches_with_expired", 100)
 	c.Floor("batches_with_4_types", 10)
